@@ -77,7 +77,11 @@ type StoreWorld struct {
 	K []Kind
 	R []store.Store
 	M []*model.MapStore
-	T []store.Store // twin world (C15), nil otherwise
+	T []store.Store // twin world (C15, C14), nil otherwise
+	// SkipReads: the twin world executes the same history with every read-only
+	// operation left out (C14); otherwise the twin executes Clear as "replace by
+	// a new object" (C15).
+	SkipReads bool
 }
 
 type storeOp struct {
@@ -264,6 +268,19 @@ func opReadIter(s int) storeOp {
 		},
 		mod: func(*StoreWorld) {}}
 }
+
+// opReadStop: iterations that the callback stops early (after the first and
+// after the second bin).
+func opReadStop(s int) storeOp {
+	return storeOp{name: fmt.Sprintf("read %s: ForEach stopped after 1 bin, after 2 bins", slotName(s)), tag: "read",
+		real: func(st []store.Store, _ []Kind, _ bool) {
+			for k := 1; k <= 2; k++ {
+				n := 0
+				st[s].ForEach(func(int, float64) bool { n++; return n >= k })
+			}
+		},
+		mod: func(*StoreWorld) {}}
+}
 func opReadEncode(s int) storeOp {
 	return storeOp{name: fmt.Sprintf("read %s: Encode", slotName(s)), tag: "read",
 		real: func(st []store.Store, _ []Kind, _ bool) {
@@ -277,12 +294,13 @@ func opReadEncode(s int) storeOp {
 // matters is that something derived from the content may have been cached
 // before the Clear).
 func opReadAll(s int) storeOp {
-	a, b, c := opReadIter(s), opReadEncode(s), opReadMisc(s)
-	return storeOp{name: fmt.Sprintf("read %s: KeyAtRank(0), ForEach, Bins, Encode, TotalCount, MinIndex, MaxIndex, ToProto, Copy", slotName(s)), tag: "read",
+	a, b, c, d := opReadIter(s), opReadEncode(s), opReadMisc(s), opReadStop(s)
+	return storeOp{name: fmt.Sprintf("read %s: KeyAtRank(0), ForEach, Bins, Encode, TotalCount, MinIndex, MaxIndex, ToProto, Copy, ForEach stopped early", slotName(s)), tag: "read",
 		real: func(st []store.Store, k []Kind, twin bool) {
 			a.real(st, k, twin)
 			b.real(st, k, twin)
 			c.real(st, k, twin)
+			d.real(st, k, twin)
 		},
 		mod: func(*StoreWorld) {}}
 }
@@ -339,7 +357,11 @@ func (o storeOp) toOp() mc.Op[*StoreWorld] {
 	return mc.Op[*StoreWorld]{Name: o.name, Writes: o.writes, Do: func(w *StoreWorld) {
 		o.real(w.R, w.K, false)
 		if w.T != nil {
-			o.real(w.T, w.K, true)
+			if !w.SkipReads {
+				o.real(w.T, w.K, true)
+			} else if o.tag != "read" {
+				o.real(w.T, w.K, false)
+			}
 		}
 		o.mod(w)
 	}}
@@ -478,6 +500,7 @@ type StoreScenarioSpec struct {
 	Seeds       []mc.Seed[*StoreWorld]
 	Depth       int
 	Twin        bool   // C15: main world vs twin world
+	NoReadTwin  bool   // C14: twin world = the same history without its read-only operations
 	Frame       string // frame clause name ("" = off)
 	ModelClause bool   // compare every slot with its reference model
 	SpanClause  bool   // bounded kinds: span and bin count <= N
@@ -511,11 +534,11 @@ func (sp *StoreScenarioSpec) Build() *mc.Scenario[*StoreWorld] {
 		}
 	}
 	sc.Fresh = func() *StoreWorld {
-		w := &StoreWorld{K: append([]Kind{}, kinds...)}
+		w := &StoreWorld{K: append([]Kind{}, kinds...), SkipReads: sp.NoReadTwin}
 		for _, k := range kinds {
 			w.R = append(w.R, k.New())
 			w.M = append(w.M, k.Model())
-			if sp.Twin {
+			if sp.Twin || sp.NoReadTwin {
 				w.T = append(w.T, k.New())
 			}
 		}
@@ -572,6 +595,12 @@ func (sp *StoreScenarioSpec) Build() *mc.Scenario[*StoreWorld] {
 				if hi-lo+1 > w.K[i].N || n > w.K[i].N {
 					fails = append(fails, mc.Fail{Clause: sp.Property + ".span",
 						Detail: fmt.Sprintf("slot %s (%s) holds %d bins over [%d,%d], limit %d", slotName(i), w.K[i], n, lo, hi, w.K[i].N)})
+				}
+			}
+			if sp.NoReadTwin {
+				if twin := ObserveStore(w.T[i], ranks); real != twin {
+					fails = append(fails, mc.Fail{Clause: "C14.reads-leave-no-trace",
+						Detail: fmt.Sprintf("slot %s (%s): the same history without its read-only operations leads to other answers\n  with reads:    %s\n  without reads: %s", slotName(i), w.K[i], real, twin)})
 				}
 			}
 			if sp.Twin {
